@@ -172,6 +172,12 @@ class Spread:
         self.value = value
 
 
+class DictLit:
+    """a dict literal {"name": value, ...}"""
+    def __init__(self, items):
+        self.items = items
+
+
 class Empty:
     """a freshly created empty list / dict / set"""
     def __init__(self, kind):
@@ -460,6 +466,12 @@ class Exec:
                     res.append(("raise", o.exc, q)); continue
                 if not isinstance(o, SymObj):
                     self.unsupported(node, "attribute store on non-object")
+                if o.model is not None and hasattr(o.model, "setattr"):
+                    # a property setter represented by its contract: returns outcomes, or None for a plain store
+                    r = o.model.setattr(self, o, tgt.attr, v, q, node)
+                    if r is not None:
+                        res += r
+                        continue
                 q.heap[(id(o), tgt.attr)] = v
                 q.writes.append((o.name, tgt.attr))
                 res.append(("fall", None, q))
@@ -578,6 +590,15 @@ class Exec:
                 else:
                     flat.append(v)
             out.append((Tup(flat), q))
+        return out
+
+    def e_Dict(self, e, p):
+        """dict literal with constant string keys: a Python dict of engine values (used for wiring signature member tables)"""
+        if not all(isinstance(k, ast.Constant) and isinstance(k.value, str) for k in e.keys):
+            self.unsupported(e, "dict literal with non-literal keys")
+        out = []
+        for vals, q in self.eval_seq(list(e.values), p):
+            out.append((vals, q) if isinstance(vals, Raised) else (DictLit({k.value: v for k, v in zip(e.keys, vals)}), q))
         return out
 
     def e_List(self, e, p):
